@@ -401,7 +401,21 @@ class Translator:
         if isinstance(e, ast.Dict):
             return {self.expr(k, env, ctx): self.expr(v, env, ctx) for k, v in zip(e.keys, e.values)}
         if isinstance(e, ast.JoinedStr):
-            return "<str>"
+            # concrete when every interpolated value is concrete (e.g. f"n_m{i}" with a literal i); otherwise message text
+            parts = []
+            for v in e.values:
+                if isinstance(v, ast.Constant):
+                    parts.append(str(v.value))
+                    continue
+                try:
+                    x = self.expr(v.value, env, ctx)
+                except AnalysisError:
+                    return "<str>"
+                if isinstance(x, (str, int)) or (isinstance(x, sp.Basic) and x.is_Integer):
+                    parts.append(str(x))
+                else:
+                    return "<str>"
+            return "".join(parts)
         if isinstance(e, ast.Call):
             return self.call(e, env, ctx)
         self.err(e, f"expression {type(e).__name__} outside the algebraic fragment")
@@ -538,19 +552,21 @@ class _Timeout(Exception):
 @contextlib.contextmanager
 def time_limit(seconds):
     """bound a sympy call (main thread only); on expiry the caller falls back to the next normal form"""
+    # the budget is CPU time of this process (ITIMER_PROF), not wall-clock time: the outcome of a check must not depend on
+    # how busy the machine is
     def handler(signum, frame):
         raise _Timeout()
     try:
-        old = signal.signal(signal.SIGALRM, handler)
+        old = signal.signal(signal.SIGPROF, handler)
     except ValueError:      # not in the main thread
         yield
         return
-    signal.setitimer(signal.ITIMER_REAL, seconds)
+    signal.setitimer(signal.ITIMER_PROF, seconds)
     try:
         yield
     finally:
-        signal.setitimer(signal.ITIMER_REAL, 0)
-        signal.signal(signal.SIGALRM, old)
+        signal.setitimer(signal.ITIMER_PROF, 0)
+        signal.signal(signal.SIGPROF, old)
 
 
 def normalise(expr):
